@@ -88,6 +88,7 @@ type Options struct {
 	CsAdmit, CsServe bool
 	CsCapacity       int
 	DnlLifetimeMs    int
+	DnlLifetimeZero  bool
 	Regions          []string
 	FibAlgo          string
 	M                int
@@ -104,7 +105,9 @@ func New(o Options) *Sim {
 	cfg.Tables.ContentStore.Admit = o.CsAdmit
 	cfg.Tables.ContentStore.Serve = o.CsServe
 	cfg.Tables.ContentStore.Capacity = uint16(o.CsCapacity)
-	if o.DnlLifetimeMs > 0 {
+	if o.DnlLifetimeZero {
+		cfg.Tables.DeadNonceList.Lifetime = 0 // a configured lifetime of 0 ms: records fall due at once
+	} else if o.DnlLifetimeMs > 0 {
 		cfg.Tables.DeadNonceList.Lifetime = o.DnlLifetimeMs
 	}
 	cfg.Tables.NetworkRegion.Regions = o.Regions
